@@ -39,7 +39,7 @@ pub struct Case {
 pub const LONG_TEST: &str = ".test \"long\" {\n    lda #40\n    sta $10\nl3:\n    ldx #0\nl2:\n    ldy #0\nl1:\n    nop\n    dey\n    bne l1\n    dex\n    bne l2\n    dec $10\n    bne l3\n    brk\n}\n.test \"short\" {\n    lda #1\n    nop\n    brk\n}\n";
 
 /// thread states of a process: (name, state char, utime+stime, syscall number)
-fn thread_sample(pid: u32) -> Vec<(String, char, u64, String)> {
+pub fn thread_sample(pid: u32) -> Vec<(String, char, u64, String)> {
     let mut v = vec![];
     if let Ok(rd) = std::fs::read_dir(format!("/proc/{}/task", pid)) {
         for e in rd.filter_map(|e| e.ok()) {
